@@ -143,6 +143,10 @@ fn length_grid<S: HSuite>(ctx: &Ctx) {
             }
         }
     }
+    // long messages (chunked absorption, length arithmetic in 16 or 32 bits)
+    for &m in &[65535usize, 65536, 65537, 131073, 200_000, (1 << 20) + 1] {
+        cases.push((m, 43));
+    }
     // variants: quick = both modes x both XMD hashes + RO x both XOFs ; thorough = everything
     let variants: Vec<(bool, Expander)> = if ctx.quick() {
         vec![(true, EXPANDERS[0]), (false, EXPANDERS[0]), (true, EXPANDERS[1]), (false, EXPANDERS[1]), (true, EXPANDERS[2]), (true, EXPANDERS[3])]
@@ -314,6 +318,6 @@ pub fn run(ctx: &Ctx) -> (&'static str, &'static str) {
     ctx.assume("cofactor clearing in the bulk comparison uses the library stage on the reference sum (C17); every 3rd-61st case uses a full big-integer [h_eff] multiplication and a big-integer subgroup test");
     (
         "exploration",
-        "full cross product {G1,G2} x {random-oracle, non-uniform} x {XMD-SHA-256, XMD-SHA-512, XOF-SHAKE128, XOF-SHAKE256} x message lengths at every hash-block / padding / sponge-rate boundary x 2 contents x tag lengths 0..255 at boundaries x 2 contents, each call compared with the reference pipeline hash_to_field -> simplified SWU -> isogeny -> addition -> cofactor clearing on big integers; repeated evaluation; every message length 0..200 x tag lengths {0,43,50,255} (thorough: the full grid 0..260 x 0..255) against the library map stage applied to the reference hash_to_field output; RFC 9380 Appendix J vectors; non-trivial = every call (no default class)",
+        "full cross product {G1,G2} x {random-oracle, non-uniform} x {XMD-SHA-256, XMD-SHA-512, XOF-SHAKE128, XOF-SHAKE256} x message lengths at every hash-block / padding / sponge-rate boundary x 2 contents x tag lengths 0..255 at boundaries x 2 contents, each call compared with the reference pipeline hash_to_field -> simplified SWU -> isogeny -> addition -> cofactor clearing on big integers; repeated evaluation; every message length 0..200 x tag lengths {0,43,50,255} (thorough: the full grid 0..260 x 0..255) and messages of 65535..2^20+1 bytes against the library map stage applied to the reference hash_to_field output; RFC 9380 Appendix J vectors; non-trivial = every call (no default class)",
     )
 }
